@@ -45,7 +45,7 @@ pub fn universe(prop: &'static str, tier: Tier) -> Universe {
     u.node_names = vec![];
     u.define_names = vec![];
     u.names = classify_names(&["o", "a:b/i@1.3.0", "a:b/i@0.2.1", "x", "y", "e1"]);
-    u.max_nodes = tier.pick(4, 5);
+    u.max_nodes = tier.pick(5, 6);
     u.max_pkgs = 10;
     u.ops = ["Instantiate", "Alias", "Import", "SetArg", "Export"].into_iter().collect();
     u
@@ -74,7 +74,7 @@ pub fn run(args: &[String]) {
     }
     let tier = ctx.tier();
     let u = universe("C03", tier);
-    let depth = tier.pick(3, 4);
+    let depth = tier.pick(4, 5);
 
     // order-insensitive groups: canonical composition -> (interface signature, first history)
     let groups: Mutex<BTreeMap<String, (String, Vec<Op>)>> = Mutex::new(BTreeMap::new());
@@ -146,7 +146,7 @@ pub fn run(args: &[String]) {
         }
     }
 
-    let (stats, found) = bfs(&u, &seeds(), depth, Some(&extra), tier.pick(400_000, 6_000_000), None);
+    let (stats, found) = bfs(&u, &seeds(), depth, Some(&extra), tier.pick(2_000_000, 30_000_000), None);
     for f in found {
         let mut case = f.case;
         case["tier"] = json!(tier.as_str());
